@@ -9,7 +9,7 @@ from harness import model, proto_impl as PI, vloop
 from harness.common import Prop
 
 
-async def _run(ops, talking, late_fail=False):
+async def _run(ops, talking, late_fail=False, close_stall=0):
     log, transports = [], []
     script = []
     for op in ops:
@@ -137,12 +137,14 @@ async def _run(ops, talking, late_fail=False):
                 except Exception:  # noqa: BLE001
                     return
         feeder = asyncio.ensure_future(feed())
+    for _, w in transports:
+        w.close_delay = close_stall          # how long the transport takes to confirm that it is closed (a stalled peer: never)
     t0 = loop.time()
     returned = True
     me = asyncio.current_task()
     try:
         await asyncio.wait_for(conn.close(), timeout=600)
-    except asyncio.TimeoutError:
+    except Exception:  # noqa: BLE001   (close() must return; an exception escaping from it is not a return)
         returned = False
     dur = loop.time() - t0
     await PI.settle(4)
@@ -166,7 +168,7 @@ class C12(Prop):
     rule = ("histories over: connect (0..2 failing opens), frames creating the ecoMAX device, mixers 0 and 4 and thermostat 0 (overlapping "
             "index), an ecoSTER device, undecodable frames; queued requests; pending tasks owned by the device / a mixer / a thermostat / "
             "set_nowait; connection loss with a reconnect chain that succeeds or keeps failing; silence; close() issued at the end of every "
-            "prefix, with a silent or a talking controller.  Observed: close() returns, its virtual duration, tasks still pending afterwards "
+            "prefix, with a silent or a talking controller, on transports that confirm closing at once, after 2 / 9 / 11 s, or never.  Observed: close() returns, its virtual duration, tasks still pending afterwards "
             "(asyncio.all_tasks), transports closed.  Non-trivial = something is queued, pending or disconnected when close() is issued; "
             "distinct by (history, talking).")
     assumptions = ["the state close() is issued in (connected, queue sizes, pending tasks per owner) is read from the implementation just "
@@ -197,7 +199,8 @@ class C12(Prop):
                     ops.append(["silence", rng.choice([0, 1, 5, 9, 11, 30])])
             # close() at every point of the history
             for cut in range(1, len(ops) + 1):
-                cases.append({"kind": "prefix", "ops": ops[:cut], "talking": rng.random() < 0.3, "late_fail": rng.random() < 0.5})
+                cases.append({"kind": "prefix", "ops": ops[:cut], "talking": rng.random() < 0.3, "late_fail": rng.random() < 0.5,
+                              "close_stall": rng.choice([0, 0, 0, 2, 9, 11, 10 ** 6])})
         # close() issued in the very loop iteration in which one reconnect attempt hands over to the next
         # (the finished task is still registered when cancel_tasks() runs)
         # sub-devices that come and go in the sensor data: tasks started on a mixer / thermostat that a later message no longer lists
@@ -220,11 +223,11 @@ class C12(Prop):
 
     def run_impl(self, c):
         try:
-            r = vloop.run(_run, c["ops"], c["talking"], c.get("late_fail", False))
+            r = vloop.run(_run, c["ops"], c["talking"], c.get("late_fail", False), c.get("close_stall", 0))
             # which task cancel_tasks() meets first depends on the addresses of the task objects: repeat the
             # history and keep the worst outcome
             for _ in range(c.get("repeat", 1) - 1):
-                r2 = vloop.run(_run, c["ops"], c["talking"], c.get("late_fail", False))
+                r2 = vloop.run(_run, c["ops"], c["talking"], c.get("late_fail", False), c.get("close_stall", 0))
                 if (not r2["result"][0], r2["result"][2], not r2["result"][3]) > (not r["result"][0], r["result"][2], not r["result"][3]):
                     r = r2
         except vloop.Deadlock:
